@@ -21,6 +21,7 @@ mod clip;
 mod pipe;
 mod rand;
 mod color;
+mod xform;
 
 use std::io::{BufRead, BufWriter, Write};
 
@@ -70,6 +71,7 @@ fn subsystem(name: &str) -> Option<(GenFn, ExecFn)> {
         "pipe" => (pipe::gen, pipe::exec),
         "rand" => (rand::gen, rand::exec),
         "color" => (color::gen, color::exec),
+        "xform" => (xform::gen, xform::exec),
         _ => return None,
     })
 }
